@@ -56,7 +56,7 @@ P("C06",
   health={"expiry=past": 10, "expiry=future": 10, "scheme=sa": 20, "tsa=applies": 30, "token=valid": 10, "token=absent": 5, "token=wrong-imprint": 5, "token=untrusted-tsa": 5, "ts=pass": 10, "ts=fail": 10, "token=ca-as-tsa": 10, "token=keyenc-only": 10, "token=replayed": 10, "token=tsa-under-codesigning-ca": 5, "revoked-tsa-under-revocation-skip": 5, "tsarev=revoked-later": 10, "constructor=legacy": 100, "real-directory-store": 100})
 
 P("C07",
-  technique="round-trip PBT: sign with the real signing API (local + honest in-process plugin signers) then verify; payload/digest/expiry/descriptor/metadata compared with the harness's own computation; reused plugin signer across keys, earlier untrusted signature of the other format, large metadata through the library's repository client, failing blob sources; plugins that answer one command once with a retryable error; overlapping Sign calls on one signer with the schedule owned through a yielding context logger and plugin",
+  technique="round-trip PBT: sign with the real signing API (local + honest in-process plugin signers) then verify; payload/digest/expiry/descriptor/metadata compared with the harness's own computation; reused plugin signer across keys, earlier untrusted signature of the other format, large metadata through the library's repository client, failing blob sources; overlapping descriptor and blob calls (eight goroutines, plain readers); a repository that retains resolved descriptors across two signing calls; plugins that answer one command once with a retryable error; overlapping Sign calls on one signer with the schedule owned through a yielding context logger and plugin",
   level_text="Exploration: full sign->verify round trips over key specs x formats x signer kinds x OCI/blob targets x metadata x expiry; every observable the statement names is recomputed independently.",
   level_note="Trusts Go's crypto and JSON; JWS descriptor sizes are bounded by 2^53 (known finding F13 in a dependency).",
   health={"kind=oci": 20, "kind=blob": 20, "signer=local": 10, "signer=plugin-raw": 10, "signer=plugin-envelope": 10, "format=jws": 20, "format=cose": 20, "artifact-annotations-empty-map": 20, "signer-reused-after-other-key": 20, "verify-omits=media-type": 10, "untrusted-signature-of-other-format-listed-first": 20, "large-metadata-through-registry-client": 6, "plugin-transient-error-after-blob-was-read": 10, "overlap-signer=local": 4, "overlap-signer=plugin-envelope": 4, "trust-store-content-rotated-on-long-lived-verifier": 50},
@@ -107,7 +107,7 @@ P("C11",
   health={"repo=scripted": 20, "repo=oci-layout": 20, "calls>=2": 20, "meta=colliding": 5, "meta=reserved": 5, "ref=digest-mismatch": 5, "signer-annotations=clashing": 100, "plugin-backed-signer=envelope": 100, "plugin-backed-signer=envelope-drops-annotations": 50, "reference-moves-after-first-resolve": 50, "signing-key-with-other-hash-than-sha256": 100, "ref=digest-mismatch-other-algorithm": 20})
 
 P("C12",
-  technique="robustness PBT + fuzzing: structured mutations of valid inputs and the full verifier-configuration cross product run under recover with allocation accounting; hostile on-disk OCI layouts and an in-process hostile HTTP registry behind the real oras client; generated shapes of the trust-store directory tree x store names of any length; identities with hex-string values nested up to 300000 deep (stack growth accounted); four native fuzz targets in thorough",
+  technique="robustness PBT + fuzzing: structured mutations of valid inputs and the full verifier-configuration cross product run under recover with allocation accounting; hostile on-disk OCI layouts and an in-process hostile HTTP registry behind the real oras client; generated shapes of the trust-store directory tree x store names of any length; identities with hex-string values nested up to 300000 deep (stack growth accounted); a plugin that leaves a descendant holding its output under a context without deadline; four native fuzz targets in thorough",
   level_text="Exploration: every public entry point x input kind x verifier configuration is called under recover; a panic, a runaway allocation (explicit threshold) or an inconsistent (outcome, error) pair is a violation.",
   level_note="'Runaway allocation' is an explicit threshold (512 MiB for inputs < 4 MiB), not a proof of boundedness; a worker ended by the Go runtime's fatal out-of-memory error counts as a violation when the allocating goroutine's stack is inside notation-go (the driver reads the crash report; the replay re-runs the shard); other worker deaths (panics in goroutines the library might spawn) are reported as inconclusive.",
   crash_is_violation=True,
@@ -128,7 +128,7 @@ P("C12",
   fuzz=[{"name": "FuzzC12_Envelope", "seconds": 90}, {"name": "FuzzC12_PolicyJSON", "seconds": 60}, {"name": "FuzzC12_ConfigJSON", "seconds": 60}, {"name": "FuzzC12_CacheEntry", "seconds": 60}])
 
 P("C13",
-  technique="model-based PBT over real directory trees: generated store type/name/directory shape/entries; all-or-nothing oracle on exact DER multiset and typed errors; store values reused across in-place content changes; >1 MiB bundles; twelve goroutines loading twelve stores from one store value; contexts whose deadline passes at their n-th poll",
+  technique="model-based PBT over real directory trees: generated store type/name/directory shape/entries; all-or-nothing oracle on exact DER multiset and typed errors; store values reused across in-place content changes; >1 MiB bundles; stores of 300..2100 (thorough 9000) files with one bad entry; configuration roots whose names hold pattern characters; twelve goroutines loading twelve stores from one store value; contexts whose deadline passes at their n-th poll",
   level_text="Exploration: GetCertificates on generated trust-store trees compared with a model that knows every entry's validity by construction.",
   level_note="FIFOs/devices are excluded (would block); runs as root, so permission-denied classes are not generated.",
   health={"ok": 50, "fail": 50, "model=succeed": 50, "model=either": 5, "type=ca": 20, "type=signingAuthority": 20, "type=tsa": 20, "type=invalid": 10,
